@@ -444,6 +444,42 @@ func TestGrokSizes(t *testing.T) {
 	evid.Exhaustive("captures per expression 1..100; alias chains 2..40; subjects to 70000 bytes", n)
 }
 
+// TestGrokAbsentCaptures: a named capture that takes no part in the match - it sits in an optional group that was
+// skipped, in an alternative that was not taken - is written like a capture that matched the empty text, for every
+// declared type; the captures that did take part are written as usual.
+func TestGrokAbsentCaptures(t *testing.T) {
+	n := 0
+	for _, ty := range []string{"", ":int", ":float", ":str", ":bool"} {
+		pats := []struct {
+			pat   string
+			subjs []string
+		}{
+			{"(?:%{INT:code" + ty + "} )?%{WORD:w}", []string{"hello", "42 hello", " hello", "42"}},
+			{"%{WORD:verb} (?:%{NUMBER:bytes" + ty + "}|-)", []string{"GET -", "GET 17", "GET 1.5", "GET"}},
+			{"%{WORD:a}(?: %{WORD:b" + ty + "})?$", []string{"one", "one two", "one true", "one 2"}},
+			{"^(?:%{INT:x" + ty + "}|%{WORD:y" + ty + "})$", []string{"12", "word", "true", "-"}},
+			{"%{WORD:a}(?: (?:%{INT:deep" + ty + "})?)?", []string{"one", "one ", "one 5"}},
+			{"(%{INT:n" + ty + "})*%{WORD:w}", []string{"abc", "12abc"}},
+		}
+		for pi, pc := range pats {
+			for si, subj := range pc.subjs {
+				for form := 0; form < 2; form++ {
+					g := gen.NCall("grok", id("_"), str(pc.pat))
+					if form == 1 {
+						g = gen.NCall("grok", id("_"), str(pc.pat), gen.NBool(false))
+					}
+					c := sem.NewCase(gen.FixAll([]*gen.Node{gen.NSet("ok", g),
+						gen.NCall("probe", str("ok"), id("ok"), gen.NCall("get_key", str("code")), gen.NCall("get_key", str("bytes")), gen.NCall("get_key", str("b")), gen.NCall("get_key", str("x")), gen.NCall("get_key", str("y")), gen.NCall("get_key", str("deep")), gen.NCall("get_key", str("n")), gen.NCall("get_key", str("w")))}))
+					c.Fields = map[string]any{"message": subj, "keep": int64(42)}
+					judge(t, "grok-absent", c, fmt.Sprintf("grokabsent/%s/%d/%d/%d", ty, pi, si, form), true, "grok-absent-capture")
+					n++
+				}
+			}
+		}
+	}
+	evid.Exhaustive("declared type x pattern with an optional / alternative named capture x subject x trim flag", n)
+}
+
 // ------------------------------------------------------------------ datetime
 
 func TestDatetime(t *testing.T) {
